@@ -736,6 +736,7 @@ void File::uncompressedFile2ReadWriteQueue() {
         // we are about to read too much data
         tmp = ohb.objectSize - obj->calculateObjectSize();
     }
+    const std::streampos objectBegin = m_uncompressedFile.tellg();
 
     /* read object */
     obj->read(m_uncompressedFile);
@@ -745,7 +746,8 @@ void File::uncompressedFile2ReadWriteQueue() {
     }
 
     if (tmp!=0) {
-        m_uncompressedFile.seekg(tmp);
+        /* continue at the declared end of the object; what read() consumed depends on the layout variant it found */
+        m_uncompressedFile.seekg(static_cast<std::streamoff>(ohb.objectSize) - (m_uncompressedFile.tellg() - objectBegin));
     }
 
     /* the object belongs to the reader once it is in the queue, so look at it before */
